@@ -119,7 +119,7 @@ def coherence_error(TM, TAA):
     if not (np.all(np.isfinite(TM)) and np.all(np.isfinite(TAA))):
         return 'non-finite entries'
     R = TM[:3, :3]
-    if np.max(np.abs(R.T @ R - np.eye(3))) > 5e-6 or abs(np.linalg.det(R) - 1) > 5e-6 or np.max(np.abs(TM[3] - [0, 0, 0, 1])) > 5e-6:
+    if G.gt(np.max(np.abs(R.T @ R - np.eye(3))), 5e-6) or abs(np.linalg.det(R) - 1) > 5e-6 or G.gt(np.max(np.abs(TM[3] - [0, 0, 0, 1])), 5e-6):
         return 'matrix is not in SE(3)'
     ref = np.eye(4)
     ref[:3, :3] = G.rot_ref(TAA[3:6, 0])
